@@ -98,11 +98,49 @@ func (u *unitCtx) applies(inv *StateInv, st *TState) bool {
 func (u *unitCtx) invsFor(st *TState, rest bool) []*StateInv {
 	var out []*StateInv
 	for _, inv := range u.invs {
-		if inv.Rest == rest && u.applies(inv, st) {
+		if inv.Rest == rest && !inv.Step && u.applies(inv, st) {
 			out = append(out, inv)
 		}
 	}
 	return out
+}
+
+func (u *unitCtx) stepsFor(st *TState) []*StateInv {
+	var out []*StateInv
+	for _, inv := range u.invs {
+		if inv.Step && u.applies(inv, st) {
+			out = append(out, inv)
+		}
+	}
+	return out
+}
+
+// persist models swapStore.UpdateData at the points where SendEvent/Recover
+// call it: every durable ghost mirror takes the current value of its expression.
+func (u *unitCtx) persist(x *Exec, st *State, env *specEnv) {
+	for _, d := range u.r.eng.cs.Durables {
+		if d.PkgPath != u.pkg {
+			continue
+		}
+		g, ok := st.ghost[d.Ghost]
+		if !ok {
+			specFail("durable: unknown ghost %s", d.Ghost)
+		}
+		e2 := *env
+		e2.st = st
+		x.specDepth++
+		v := x.evalSpec(d.Clause.Expr, &e2, TTrue)
+		x.specDepth--
+		v = x.scalarize(x.materialize(v, g.T))
+		if len(v.L) != len(g.L) {
+			specFail("durable %s: expression does not have the ghost's type", d.Ghost)
+		}
+		nv := Val{T: g.T, L: make([]Term, len(v.L))}
+		for i := range v.L {
+			nv.L[i] = x.c.Define("dur_"+d.Ghost, v.L[i])
+		}
+		st.ghost[d.Ghost] = nv
+	}
 }
 
 func (r *Run) addStateUnits(prop string) {
@@ -265,6 +303,18 @@ func (u *unitCtx) stateUnit(st *TState) (err error) {
 		mkEnv := func() *specEnv {
 			return &specEnv{x: x, names: names, st: rt.st, old: entry, pkg: pkg, results: rt.vals, sig: top.Signature}
 		}
+		// two-state invariants across the action (before the store write)
+		for k, inv := range u.stepsFor(st) {
+			x.specDepth++
+			g := x.evalBool(inv.Clause.Expr, mkEnv(), rt.reach)
+			x.specDepth--
+			on := fmt.Sprintf("%s#step[%s]", name, clauseLabel(inv.Clause, k))
+			x.addObl(on, "state", inv.Clause.Text, inv.Clause.Props,
+				OblPart{NegGoal: And(rt.reach, x.notGoal(g)), NAssume: len(x.c.Assumes), Where: where, Cex: cex}, false)
+		}
+		// SendEvent/Recover persist the swap right after the action returns
+		rt.st = rt.st.clone()
+		u.persist(x, rt.st, mkEnv())
 		// R1: only accepted events
 		allowed := []Term{Eq(res, evTerm("NoOp"))}
 		for _, e := range evs {
@@ -393,6 +443,7 @@ func (u *unitCtx) edgeUnits(st *TState) (err error) {
 					x.store(st0, a, freshVal(x.c, "evh_"+f, a.FT))
 				}
 			}
+			u.persist(x, st0, env) // SendEvent writes the swap before it looks up the transition
 			for k, inv := range targets {
 				x.specDepth++
 				g := x.evalBool(inv.Clause.Expr, env, TTrue)
@@ -498,6 +549,7 @@ func (u *unitCtx) edgeUnits(st *TState) (err error) {
 				return x.msgVal(mt)
 			}
 			x.topFrame = &frame{fn: app, vals: map[ssa.Value]Val{}}
+			pre := st0.clone()
 			// Validate
 			r1 := x.inline(val, []Val{mkRecv(val), sw}, nil, st0, TTrue, 1)
 			ok1 := Eq(r1[0].L[0], BVLit(0, 32))
@@ -506,9 +558,24 @@ func (u *unitCtx) edgeUnits(st *TState) (err error) {
 			r2 := x.inline(app, []Val{mkRecv(app), sw}, nil, stA, ok1, 1)
 			ok2 := Eq(r2[0].L[0], BVLit(0, 32))
 			after := x.mergeStates([]Term{Not(ok1), ok1}, []*State{st0, stA})
-			envA := &specEnv{x: x, names: names, st: after, old: st0, pkg: pkg}
+			envA := &specEnv{x: x, names: names, st: after, old: pre, pkg: pkg}
 			cex := append(append([]CexTerm{}, cexBase...), x.cexOf("out.swap", sw, after, 1)...)
 			cex = append(cex, CexTerm{"validate.err.#tag", r1[0].L[0]}, CexTerm{"apply.err.#tag", r2[0].L[0]})
+			if st.HasAction {
+				for k, inv := range u.stepsFor(st) {
+					x.specDepth++
+					g := x.evalBool(inv.Clause.Expr, envA, TTrue)
+					x.specDepth--
+					on := fmt.Sprintf("%s#ctx[%s].step[%s]", base, cname, clauseLabel(inv.Clause, k))
+					x.addObl(on, "state", inv.Clause.Text, inv.Clause.Props,
+						OblPart{NegGoal: x.notGoal(g), NAssume: len(x.c.Assumes), Where: "message " + cname + " applied", Cex: cex}, false)
+				}
+			}
+			// SendEvent persists the swap after a successfully applied context
+			persisted := after.clone()
+			u.persist(x, persisted, envA)
+			after = x.mergeStates([]Term{Not(And(ok1, ok2)), And(ok1, ok2)}, []*State{after, persisted})
+			envA = &specEnv{x: x, names: names, st: after, old: pre, pkg: pkg}
 			for k, inv := range append(append([]*StateInv{}, entryS...), restS...) {
 				if !st.HasAction {
 					break // the initial state is left by its first event; nothing rests or recovers there
